@@ -116,11 +116,11 @@ def parse_template(text):
                 elif k == 'ret':
                     spec.ret = arg
                     cur = None
-                elif k == 'sub':
+                elif k in ('sub', 'subopt'):
                     mo = re.match(r'"((?:[^"\\]|\\.)*)"\s*=>\s*"((?:[^"\\]|\\.)*)"\s*(#\d+|all)?\s*$', arg)
                     if not mo:
                         raise ExtractError('template line %d: bad //@sub' % (i + 1))
-                    spec.subs.append((_unesc(mo.group(1)), _unesc(mo.group(2)), mo.group(3) or '#1!', i + 1))
+                    spec.subs.append((_unesc(mo.group(1)), _unesc(mo.group(2)), ('opt' if k == 'subopt' else (mo.group(3) or '#1!')), i + 1))
                     cur = None
                 elif k in RAW_KINDS:
                     cur = (k, arg, [], i + 1)
@@ -249,6 +249,12 @@ def build_item(src, spec, idx, log):
     # 2. logged literal substitutions
     for frm, to, which, tline in spec.subs:
         cnt = text.count(frm)
+        if which == 'opt':
+            # optional: applied wherever it occurs (used for flat-namespace renames of call targets)
+            if cnt:
+                text = text.replace(frm, to)
+                log['subs'].append({'item': what, 'from': frm, 'to': to, 'count': cnt})
+            continue
         if cnt == 0:
             raise ExtractError('//@sub anchor lost in %s (template line %d): "%s"' % (what, tline, frm))
         if which == 'all':
